@@ -276,3 +276,51 @@ pub fn c05_get_hours_keys() {
         assert!(h.get(&k).is_some(), "C05 every hour key is present");
     }
 }
+
+// =====================================================================================
+// C05 / C06 — sides of noon and "acos only inside its domain", from ONE range axiom:
+// acos(x) in [0, pi] for x in [-1,1] (assumed contract on libm; sin/cos are CBMC's
+// built-in nondeterministic values in [-1,1]; tan/atan arbitrary in their ranges).
+pub fn acos_axiom(x: f64) -> f64 {
+    assert!(x >= -1. && x <= 1., "C06 acos is applied only to a value the domain guard accepted (never out of domain, never NaN)");
+    any_f64_in(0., core::f64::consts::PI)
+}
+pub fn tan_any(_x: f64) -> f64 {
+    any_f64_in(-1.0e300, 1.0e300)
+}
+pub fn atan_any(_x: f64) -> f64 {
+    any_f64_in(-core::f64::consts::FRAC_PI_2, core::f64::consts::FRAC_PI_2)
+}
+fn tad_lat_dec() -> TopAstroDay {
+    let a = mk_astro(any_f64_in(-1., 1.), any_f64_in(-24., 24.), any_f64_in(0., 360.), 1., any_f64_in(0., 360.));
+    mk_tad(fixed_jd(), any_coords(), [a, a, a])
+}
+#[kani::proof]
+#[kani::unwind(9)]
+#[kani::stub(f64::acos, acos_axiom)]
+#[kani::stub(f64::tan, tan_any)]
+#[kani::stub(f64::atan, atan_any)]
+pub fn c05_sides_of_noon() {
+    let mut p = Params::new(crate::prayer_times::params::Method::Mwl);
+    p.angles.insert(Prayer::Fajr, any_f64_in(0., 25.));
+    p.angles.insert(Prayer::Isha, any_f64_in(0., 25.));
+    if kani::any() {
+        p.asr_shadow_ratio = crate::prayer_times::params::AsrShadowRatio::Hanafi;
+    }
+    let t = tad_lat_dec();
+    let dhuhr = any_f64_in(-24., 48.);
+    crate::vcover!();
+    let (f, i) = get_fajr_isha(&p, &t, dhuhr);
+    if let Ok(f) = f {
+        assert!(f <= dhuhr && f >= dhuhr - 12.000001, "C05 Fajr lies before that day's Dhuhr, within 12 hours of it");
+    }
+    if let Ok(i) = i {
+        assert!(i >= dhuhr && i <= dhuhr + 12.000001, "C05 Isha lies after that day's Dhuhr, within 12 hours of it");
+    }
+    if let Ok(a) = get_asr(&p, &t, dhuhr) {
+        assert!(a >= dhuhr && a <= dhuhr + 12.000001, "C04/C05 Asr lies after that day's Dhuhr, within 12 hours of it");
+    }
+    if let Ok(arc) = get_shur_magh_m_0_adj(&t) {
+        assert!(arc >= 0. && arc <= 0.5000001, "C02 the semi-diurnal arc is between 0 and half a day");
+    }
+}
